@@ -16,7 +16,9 @@ from typing import Any, Iterator, Optional
 
 from . import dims
 
-REPO = "/repo"
+# the tree under test: /repo, unless a scratch worktree is named (used only by tools_seed.py to run
+# seeded changes without touching /repo)
+REPO = os.environ.get("VERIF_REPO", "/repo")
 PKG = "symplyphysics"
 TREES = ("laws", "definitions", "conditions")
 
